@@ -108,9 +108,11 @@ class Gen:
         """returns (bytes, truth{num: (gen, value|Stream)}, freed set, meta)"""
         rng, sp = self.rng, self.sp
         # nested page trees: attributes inherited from the root through intermediate nodes that do not set them
-        doc = pdfgen.page_doc(rng.choice([1, 2, 3, 5, 7]), marker="S", kids_levels=rng.choice([1, 2, 2]),
+        npages = rng.choice([1, 2, 3, 5, 7])
+        doc = pdfgen.page_doc(npages, marker="S", kids_levels=rng.choice([1, 2, 2]),
                               rotate={2: 90} if rng.random() < 0.3 else None)
         objs = {n: (0, v) for n, v in doc.objects.items()}
+        structural = set(objs)            # page tree, fonts, contents: updates leave the document's page structure alone
         nxt = max(objs) + 1
         extras = {}
         for i in range(rng.choice([2, 5, 9])):
@@ -127,7 +129,7 @@ class Gen:
         out = bytearray()
         out += b"%PDF-1." + (b"5" if form != "table" else b"4") + b"\n%\xe2\xe3\xcf\xd3\n"
         sections = []           # abstract sections, oldest first: {"table": [(num, entry)], "stm": [...]}
-        meta = {"form": form, "junk": len(junk), "updates": 0}
+        meta = {"form": form, "junk": len(junk), "updates": 0, "npages": npages}
         gens = {n: 0 for n in objs}
         live = dict(objs)
         freed = {}
@@ -255,7 +257,7 @@ class Gen:
             meta["updates"] += 1
             entries = {}
             stm_entries = None
-            cands = [n for n in live if n not in (1, 2) and not isinstance(live[n][1], Stream) and live[n][1] is not None]
+            cands = [n for n in live if n not in structural and not isinstance(live[n][1], Stream) and live[n][1] is not None]
             rng.shuffle(cands)
             # replace
             for n in cands[:2]:
@@ -436,6 +438,14 @@ def run_part(chk):
         p = t[0]
         rc, so, se = common.run_qpdf([p, "--json-output", "--json-stream-data=inline", "-"])
         rc2, so2, se2 = common.run_qpdf(["--show-xref", p])
+        # the page list is part of qpdf's view: loading it must not warn either (inherited attributes, /Kids, /Count)
+        rc3, so3, se3 = common.run_qpdf(["--show-npages", p])
+        rc4, so4, se4 = common.run_qpdf(["--check", p])
+        if rc == 0 and not se.strip():
+            if rc3 != 0 or se3.strip() or so3.strip() != str(t[3]["npages"]).encode():
+                rc, se = (rc3 or 1), b"--show-npages: " + so3[:40] + b" " + se3
+            elif rc4 != 0 or b"WARNING" in so4 + se4:
+                rc, se = (rc4 or 1), b"--check: " + (so4 + se4)[-300:]
         return rc, so, se, so2
     res = common.par_map(q, files)
     nontriv = set()
